@@ -61,6 +61,8 @@ def run(run):
     _r5_persistence(run)
     from . import imgrep
     imgrep.check(run, "C15.R6")
+    # persistence: what reaches the array writers is the pixel array itself (NaN sentinels and values unchanged)
+    imgrep.saved_pixels(run, "C15.R5")
 
 
 def _norm_reduction(t):
@@ -733,6 +735,46 @@ def _r5_persistence(run):
             problems.append(("read-masked-buffer", "the buffer returned for a missing tile is %s, expected masked_mode.make_maskable_buffer(256, 256)" % show(t)[:80]))
         elif not cleared:
             problems.append(("read-masked-uncleared", "the buffer returned for a missing tile is never cleared: it holds uninitialised memory, not undefined pixels"))
+        else:
+            # cleared for *every* mode: a clear() that runs under a condition on the mode must cover all modes whose fresh
+            # buffer is not already all-undefined (only a zero-filled buffer of a mode whose sentinel is zero is)
+            from sa import teval as _teval
+            clears = [e for e in rg.events if e.kind == "call" and e.term[1][0] == "attr" and e.term[1][2] == "clear" and e.term[1][1] == t]
+            base = set(c for c in pc if c[0] != "loop")
+            extra = [[c for c in e.pc if c[0] != "loop" and c not in base] for e in clears]
+            if all(extra):
+                mode_obj = t[1][1]
+                members = _enum_members(project)
+                mk = project.fn(IMG + ".ImageMode.make_maskable_buffer")
+                for m in members:
+                    envm = {("attr", ("sym", "ImageMode"), x): x for x in members}
+                    envm[mode_obj] = m
+                    runs = None
+                    for ex in extra:
+                        vals = [_teval.teval(c[0], envm) for c in ex]
+                        if any(v is _teval.UNKNOWN or v is _teval.RAISES for v in vals):
+                            continue
+                        if all(bool(v) == bool(c[1]) for v, c in zip(vals, ex)):
+                            runs = True
+                            break
+                        runs = False if runs is None else runs
+                    if runs is None:
+                        problems.append(("read-masked-clear-condition", "the buffer returned for a missing tile is cleared only under %s, which cannot be evaluated for mode %s"
+                                         % ([show(c[0])[:60] for c in extra[0]], m)))
+                        break
+                    if runs:
+                        continue
+                    rm = _eval_for_mode(project, mk, "mode-object", m)
+                    rets_m = [x for x in rm.returns if not [c for c in x[0] if c[0] != "loop"]]
+                    allocs = [x for x in _subterms_of(rets_m[0][1]) if x and x[0] == "call" and len(x) == 4 and show(x[1]).split(".")[0] in ("np", "numpy")
+                              and show(x[1]).split(".")[-1] in ("empty", "zeros", "ones", "full", "ndarray")] if len(rets_m) == 1 else []
+                    zero_filled = len(allocs) == 1 and show(allocs[0][1]).split(".")[-1] == "zeros"
+                    if zero_filled and m in ("RGB", "RGBA", "U8", "I16", "I32"):
+                        continue        # all-zero is what clear() would have produced for this mode
+                    problems.append(("read-masked-uncleared", "for mode %s the buffer returned for a missing tile is not cleared (clear() runs only under %s): it holds %s, "
+                                     "not undefined pixels, so a tile that nobody wrote reads as data" % (
+                                         m, [show(c[0])[:60] for c in extra[0]], "zeros, which are defined values for a floating-point mode" if zero_filled else "uninitialised memory")))
+                    break
     # only errno 2
     reraise = [e for e in rg.events if e.kind == "raise" and any("errno" in show(c[0]) for c in e.pc if c[0] != "loop")]
     errno_ok = False
